@@ -1,6 +1,6 @@
 (* C06 - RPC message codec is exact, total and strict.
-   Statements only; every theorem is closed by [exact] of a lemma proved in Proofs/Rlp.v or
-   Proofs/Rpc.v and followed by Print Assumptions.  See DESIGN.md section 6 (C06).
+   Statements only; every theorem is closed by [exact] of a lemma proved in Proofs/Rlp.v,
+   Proofs/Rpc.v or Proofs/RpcGap.v and followed by Print Assumptions.  See DESIGN.md section 6 (C06).
 
    The model (Model/Rlp.v, Model/Rpc.v) transcribes rpc.rs::Message::{encode,decode} and the
    decoding rules of alloy-rlp 0.3.16.  ENR records are opaque: the theorems quantify over every
@@ -9,7 +9,7 @@
    [decode_msg .. true] is the decoder with the repair of D9 (DESIGN.md section 7), [.. false] the
    decoder of the pinned tree; theorems stated for [forall fixed] hold for both. *)
 From Coq Require Import List Arith NArith Bool.
-From Discv5V Require Import Generated.Params Model.Rlp Model.Rpc Proofs.Rlp Proofs.Rpc.
+From Discv5V Require Import Generated.Params Model.Rlp Model.Rpc Proofs.Rlp Proofs.Rpc Proofs.RpcGap.
 Import ListNotations.
 Local Open Scope N_scope.
 
@@ -32,6 +32,62 @@ Section C06.
     Hround -> Hlists ->
     forall fixed m, wf_msg enr enr_encode m -> decode fixed (encode m) = Ok m.
   Proof. exact (decode_encode_msg enr enr_encode enr_decode). Qed.
+
+  (* "IPv6 addresses of the IPv4-mapped/compatible forms decode to their IPv4 value by design":
+     a PONG that is well formed except that its 16-byte address [o] is ::ffff:a.b.c.d or ::a.b.c.d
+     (other than ::1), i.e. Ipv6Addr::to_ipv4 gives [v4], decodes to the PONG with the IPv4 address
+     [v4].  No premise on the record codec. *)
+  Theorem C06_decode_encode_pong_mapped :
+    forall fixed id s o v4 p,
+    bytes_ok id -> len id <= REQUEST_ID_MAX_LEN -> s < 2 ^ 64 -> 1 <= p <= 65535 ->
+    length o = 16%nat -> bytes_ok o -> len (encode (Pong id s (IP6 o) p)) < 2 ^ 64 ->
+    is_loopback6 o = false -> to_ipv4 o = Some v4 ->
+    decode fixed (encode (Pong id s (IP6 o) p)) = Ok (Pong id s (IP4 v4) p).
+  Proof. exact (decode_encode_pong_mapped enr enr_encode enr_decode). Qed.
+
+  (* The same for every message: with the address condition of PONG relaxed to "4 or 16 bytes"
+     ([wf_msg_lax], spelled out below), decoding the encoding returns the message up to the
+     IPv6 -> IPv4 collapse of PONG ([collapse], the identity on every well-formed message). *)
+  Theorem C06_decode_encode_msg_collapse :
+    Hround -> Hlists ->
+    forall fixed m, wf_msg_lax enr enr_encode m -> decode fixed (encode m) = Ok (collapse enr m).
+  Proof. exact (decode_encode_msg_collapse enr enr_encode enr_decode). Qed.
+
+  Theorem C06_wf_msg_lax_meaning :
+    forall m, wf_msg_lax enr enr_encode m <->
+    (bytes_ok (msg_id m) /\ len (msg_id m) <= REQUEST_ID_MAX_LEN /\ len (encode m) < 2 ^ 64 /\
+     match m with
+     | Ping _ enr_seq => enr_seq < 2 ^ 64
+     | Pong _ enr_seq ip port =>
+       enr_seq < 2 ^ 64
+       /\ match ip with
+          | IP4 o => length o = 4%nat /\ bytes_ok o
+          | IP6 o => length o = 16%nat /\ bytes_ok o
+          end
+       /\ 1 <= port <= 65535
+     | FindNode _ distances => Forall (fun d => d <= FINDNODE_MAX_DISTANCE) distances
+     | Nodes _ total _ => total < 2 ^ 64
+     | TalkReq _ protocol request => bytes_ok protocol /\ bytes_ok request
+     | TalkResp _ response => bytes_ok response
+     end).
+  Proof. intro m. unfold wf_msg_lax, wf_ip_lax. reflexivity. Qed.
+
+  Theorem C06_collapse_meaning :
+    (forall m, collapse enr m =
+       match m with
+       | Pong id s (IP6 o) p =>
+         if is_loopback6 o then m
+         else match to_ipv4 o with Some v4 => Pong id s (IP4 v4) p | None => m end
+       | _ => m
+       end)
+    /\ (forall m, wf_msg enr enr_encode m -> collapse enr m = m)
+    /\ (forall m, wf_msg enr enr_encode m -> wf_msg_lax enr enr_encode m).
+  Proof.
+    split; [|split; [exact (collapse_wf enr enr_encode)|exact (wf_msg_is_lax enr enr_encode)]].
+    intros [id s|id s [o|o] p|id ds|id t ns|id p r|id r]; try reflexivity.
+    cbn [collapse collapse_ip]. destruct (is_loopback6 o); [reflexivity|].
+    destruct (to_ipv4 o); reflexivity.
+  Qed.
 
   (* Layout: type byte, then the RLP list of the fields of the wire specification. *)
   Theorem C06_encode_layout :
@@ -69,6 +125,32 @@ Section C06.
     Hcanon -> forall bs m, bytes_ok bs -> decode true bs = Ok m ->
     exists m', bs = encode m' /\ accepted enr enr_encode enr_decode m' /\ collapse enr m' = m.
   Proof. exact (decode_msg_canonical enr enr_encode enr_decode). Qed.
+
+  (* Exact in the other direction (repaired decoder): the message returned for an accepted byte
+     string encodes back to that byte string - except for a PONG whose 16-byte address of an
+     IPv4-mapped/compatible form was returned as its IPv4 value (by design); then the input is the
+     encoding of the same PONG with that 16-byte address. *)
+  Theorem C06_encode_decode_msg :
+    Hcanon -> forall bs m, bytes_ok bs -> decode true bs = Ok m ->
+    encode m = bs \/
+    exists id s o v4 p, m = Pong id s (IP4 v4) p /\ is_loopback6 o = false /\ to_ipv4 o = Some v4 /\
+                        length o = 16%nat /\ bs = encode (Pong id s (IP6 o) p).
+  Proof. exact (encode_decode_msg enr enr_encode enr_decode). Qed.
+
+  (* ... so every returned message that is not a PONG with an IPv4 address encodes back exactly *)
+  Theorem C06_encode_decode_msg_exact :
+    Hcanon -> forall bs m, bytes_ok bs -> decode true bs = Ok m ->
+    match m with Pong _ _ (IP4 _) _ => False | _ => True end ->
+    encode m = bs.
+  Proof. exact (encode_decode_msg_exact enr enr_encode enr_decode). Qed.
+
+  (* ... and a returned PONG with an IPv4 address has two possible origins *)
+  Theorem C06_encode_decode_pong4 :
+    Hcanon -> forall bs id s v4 p, bytes_ok bs -> decode true bs = Ok (Pong id s (IP4 v4) p) ->
+    bs = encode (Pong id s (IP4 v4) p) \/
+    exists o, length o = 16%nat /\ is_loopback6 o = false /\ to_ipv4 o = Some v4 /\
+              bs = encode (Pong id s (IP6 o) p).
+  Proof. exact (encode_decode_pong4 enr enr_encode enr_decode). Qed.
 
   (* trailing bytes after the outer list *)
   Theorem C06_strict_trailing :
@@ -188,6 +270,13 @@ Print Assumptions C06_strict_unknown_type.
 Print Assumptions C06_strict_leftover.
 Print Assumptions C06_nodes_leftover_rejected.
 Print Assumptions C06_nodes_inner_list_exact.
+Print Assumptions C06_decode_encode_pong_mapped.
+Print Assumptions C06_decode_encode_msg_collapse.
+Print Assumptions C06_wf_msg_lax_meaning.
+Print Assumptions C06_collapse_meaning.
+Print Assumptions C06_encode_decode_msg.
+Print Assumptions C06_encode_decode_msg_exact.
+Print Assumptions C06_encode_decode_pong4.
 
 (* The premises on the ENR codec are satisfiable: a two-record codec (the RLP lists [] and [0x01]). *)
 Example C06_enr_hypotheses_satisfiable :
@@ -195,6 +284,19 @@ Example C06_enr_hypotheses_satisfiable :
   enr_only_lists bool toy_decode.
 Proof. exact (conj toy_round_trip (conj toy_canonical toy_only_lists)). Qed.
 Print Assumptions C06_enr_hypotheses_satisfiable.
+
+(* The premises of C06_decode_encode_pong_mapped / C06_decode_encode_msg_collapse are satisfiable
+   by a message that is NOT well formed in the strict sense: a PONG carrying ::ffff:10.0.0.1
+   decodes to the PONG carrying 10.0.0.1 (by evaluation). *)
+Example C06_pong_mapped_example :
+  wf_msg_lax bool toy_encode (Pong [1; 2] 7 (IP6 mapped_10_0_0_1) 30303) /\
+  is_loopback6 mapped_10_0_0_1 = false /\ to_ipv4 mapped_10_0_0_1 = Some [10; 0; 0; 1] /\
+  ~ wf_msg bool toy_encode (Pong [1; 2] 7 (IP6 mapped_10_0_0_1) 30303) /\
+  decode_msg bool toy_encode toy_decode true
+    (encode_msg bool toy_encode (Pong [1; 2] 7 (IP6 mapped_10_0_0_1) 30303))
+  = Ok (Pong [1; 2] 7 (IP4 [10; 0; 0; 1]) 30303).
+Proof. exact pong_mapped_example. Qed.
+Print Assumptions C06_pong_mapped_example.
 
 (* D9, the record of the finding: the decoder of the pinned tree (fixed = false) accepts
    04 ‖ list[01, 01, c0, <record>] - an input whose inner list header does not cover the rest of
